@@ -66,32 +66,52 @@ def solve_unit(*files):
     }
 
 
-SOLVE_SHADOW = {
-    "name": "chalk-solve",
-    "crate": "chalk-solve",
-    "cargo_toml": "harness/shadow/chalk-solve.Cargo.toml",
-    "appends": {
-        "src/coherence.rs": [("harness/solveshadow/c19.rs", "verif_c19")],
-    },
-}
-
-
-def solveshadow_unit(*files, modules=None):
-    return {
-        "name": "solveshadow",
-        "kind": "shadow",
-        "shadow": SOLVE_SHADOW,
-        "files": list(files),
-        "modules": modules or {},
-    }
-
-
 def ir_unit(*files):
     return dict(IR_UNIT, files=list(files),
                 modules={f: os.path.splitext(os.path.basename(f))[0].replace("_classes", "") for f in files})
 
 
 PROPS = {
+    "C28": {
+        "units": [ir_unit("harness/ir/src/c28.rs")],
+        "claim": "UCanonical::trivial_substitution (what both solvers return for 'holds for every value of the "
+                 "unknowns' and for floundered answers) has exactly one entry per unknown of the query, of the unknown's "
+                 "kind, referring to that unknown only; Substitution::is_identity_subst and "
+                 "UCanonical::is_trivial_substitution coincide with that definition for arbitrary variable entries.",
+        "bounds": "queries with three unknowns; kinds (general / integer type, lifetime, const) fixed per query, "
+                  "universes and the (depth, index) of every entry symbolic at full width; unwind 8",
+        "outside": "that the SOLVERS return such substitutions for every program and goal (root_answer, Fulfill::solve, "
+                   "make_solution run the engines and the inference table; DESIGN.md §4.1, P30); universes of returned "
+                   "answers (map_from_canonical is covered under C16)",
+        "assumptions": [],
+        "stubs": [],
+        "trusted_base": VINTERNER_TB,
+        "harness_note_default": "arity / kind / scope of the trivial substitution; exactness of is_identity_subst",
+        "level_text": "Bounded model checking (Kani/CBMC) of the real constructors and predicates for the solution "
+                      "shape; partial with respect to the property (no solver run).",
+        "level_note": "Trusted: Kani/CBMC; VInterner.",
+        "design_ref": "DESIGN.md §4.7",
+    },
+    "C29": {
+        "units": [ir_unit("harness/ir/src/c29.rs")],
+        "claim": "The variance machinery every relater goes through: Variance::xform is the sign product and invert "
+                 "the negation (all 27 triples); Zipper::zip_substs relates position i at ambient.xform(declared[i]) "
+                 "(Invariant when nothing is declared), each pair once and in order, for all ambient / declared "
+                 "variances; Zip for FnSubst relates parameters contravariantly and the return type covariantly.",
+        "bounds": "argument lists [ty, lifetime, ty]; three declared variances; fn(T0, T1) -> T2; all variance values symbolic; unwind 8",
+        "outside": "Unifier::relate_ty_ty / push_lifetime_outlives_goals composing these over real types and emitting "
+                   "the outlives goals (InferenceTable::relate does not finish under CBMC, DESIGN.md P18); "
+                   "SubtypeGoal handling in the engines",
+        "assumptions": [],
+        "stubs": [],
+        "trusted_base": VINTERNER_TB + ["harness-side recording Zipper"],
+        "harness_note_default": "variance observed by a recording zipper equals the variance table's value",
+        "level_text": "Bounded model checking (Kani/CBMC) of the real variance algebra and of the zip_substs / FnSubst "
+                      "zipping code with all variances symbolic; partial with respect to the property (the unifier "
+                      "itself is out of reach).",
+        "level_note": "Trusted: Kani/CBMC; VInterner; the sign-product reading of the variance table.",
+        "design_ref": "DESIGN.md §4.7",
+    },
     "C13": {
         "units": [dict(solve_unit("harness/solve/src/c13.rs", "harness/solve/src/c13_pairs.rs"),
                        modules={"harness/solve/src/c13.rs": "c13", "harness/solve/src/c13_pairs.rs": "c13"})],
@@ -152,12 +172,12 @@ PROPS = {
         "units": [irshadow_unit("harness/irshadow/c27.rs",
                                 modules={"harness/irshadow/c27.rs": "fold::in_place::verif_c27"})],
         "claim": "fallible_map_vec / fallible_map_box (chalk-ir/src/fold/in_place.rs, with the VecMappedInPlace drop "
-                 "guard): for every vector length 0..4, with exact and with spare capacity, and every index at which the map "
+                 "guard): for every vector length 0..4, every capacity slack 0..2 and every index at which the map "
                  "returns an error (or never), each element is dropped exactly once, on success nothing is dropped "
                  "before the result is and the result has the mapped elements in order, and all of CBMC's pointer, "
                  "bounds and deallocation checks on the unsafe code are discharged; same for boxes. Layouts: T = U, "
                  "T != U with identical layout (in-place path), different layout and zero-sized (collect path).",
-        "bounds": "vector length <= 4 (symbolic), capacity slack 0 or 2 (per query), failing index symbolic (full usize), unwind 7; boxes: fail / succeed",
+        "bounds": "vector length <= 4, capacity slack <= 2, failing index symbolic (full usize), unwind 7; boxes: fail / succeed",
         "outside": "the PANIC mode: Kani/CBMC model a panic as termination (no unwinding), so the guard's behaviour "
                    "while unwinding is not decided (it is the same Drop impl in the same state as on the error path); "
                    "vectors longer than 4; leak freedom beyond the exact drop counts",
